@@ -19,7 +19,7 @@ func runC14(e *Engine, r *Report) {
 	// ---- validators gate
 	n := checkValidatorGates(e, r, "VAL-snapshot", []string{
 		"internal/rsm.validateBlock", "internal/rsm.validateHeader",
-		"(*internal/rsm.v2validator).validateMagicSize", "(*internal/rsm.v2validator).validateBlock",
+		"(*internal/rsm.v2validator).validateMagicSize", "?(*internal/rsm.v2validator).validateBlock",
 		"(*internal/rsm.v2validator).AddChunk", "(*internal/rsm.v2validator).Validate",
 		"(*internal/rsm.v1validator).AddChunk", "(*internal/rsm.v1validator).Validate",
 		"(*internal/rsm.SnapshotValidator).AddChunk", "(*internal/rsm.SnapshotValidator).Validate",
